@@ -650,7 +650,7 @@ Notes:
                                            solver._strictMax, \
                                            tight=solver._useTightRange, \
                                            clip=self._useClipRange)
-            _term = (solver._live is False) and solver.Terminated()
+            _term = (solver._live is False) and (solver._cost[0] is not None) and solver.Terminated()
             if _term is True: solver._live = True #XXX: HACK don't reset _fcalls
             solver.Step(cost,ExtraArgs=ExtraArgs,disp=disp,callback=callback)
             if _term is True: solver._live = False
@@ -771,7 +771,7 @@ Notes:
                                            solver._strictMax, \
                                            tight=solver._useTightRange, \
                                            clip=self._useClipRange)
-            _term = (solver._live is False) and solver.Terminated()
+            _term = (solver._live is False) and (solver._cost[0] is not None) and solver.Terminated()
             if _term is True: solver._live = True #XXX: HACK don't reset _fcalls
             if solver._cost[1] is None: #XXX: HACK for configured NestedSolver
                 solver.SetObjective(cost, ExtraArgs=ExtraArgs)
